@@ -25,9 +25,9 @@ CHECKS = {
     text="Exploration over (identifier class, position) cells; static quoting check for all dialects on a sample; a collision matrix of programs that force the compiler to invent relation names while user tables/lets are called table_0..2.", note=EXEC_NOTE, design="DESIGN.md §3 C09 and §9"),
  "C10": dict(technique="runtime negative monitor: well-scoped programs with one scope-breaking edit must return Err on each of 8 repetitions",
     text="Exploration over (edit kind, name pool, enclosing transform) cells.", note="Trusts the generator's notion of a fully known frame (after select/aggregate/group-aggregate).", design="DESIGN.md §3 C10 and §9"),
- "C11": dict(technique="runtime determinism monitor against a sequential model (first call of a fresh process): repeated calls with failing/panicking calls in between, fresh processes, 16 barrier-released threads incl. first-call races, permuted file insertion orders; thorough tier adds a ThreadSanitizer build (-Zsanitizer=thread -Zbuild-std, self-tested) of the thread-stress program: 32 fresh processes x 8 threads over ~1500 programs, any race report is a violation",
+ "C11": dict(technique="runtime determinism monitor against a sequential model (first call of a fresh process): repeated calls with failing/panicking calls in between, fresh processes, 16 barrier-released threads incl. first-call races, permuted file insertion orders; thorough tier adds a ThreadSanitizer build (-Zsanitizer=thread -Zbuild-std, self-tested) of the thread-stress program: 32 fresh processes x 8 threads over ~1500 programs, any race report is a violation; plus a Miri phase (cargo +nightly miri run, self-tested): two threads parse the same source under the interpreter's data-race detector",
     text="Exploration: byte equality of SQL, RQ JSON, formatted text and full error (reason, hints, span, code, display) across histories, processes, schedules and file orders.", note="Hash seeds and schedules are sampled, not enumerated (K repetitions per program).", design="DESIGN.md §3 C11 and §9"),
- "C12": dict(technique="runtime crash monitor: panic hook + catch_unwind, process exit status, deterministic allocation-count growth; corpus/random/mutant sources, size-doubling families to n=4096, mutated PL/RQ JSON, 707 well-formed-but-unusual feature programs x all entry points x 12 dialects x option combinations",
+ "C12": dict(technique="runtime crash monitor: panic hook + catch_unwind, process exit status, deterministic allocation-count growth; corpus/random/mutant sources, size-doubling families to n=4096, mutated PL/RQ JSON, 707 well-formed-but-unusual feature programs x all entry points x 12 dialects x option combinations, hostile identifiers in every identifier position; thorough tier adds a Miri phase (self-tested): lex -> parse -> format -> re-parse of 192 short sources under the interpreter, any undefined-behaviour report is a violation",
     text="Exploration of every public entry point for panics, aborts (stack exhaustion) and super-polynomial logical cost.", note="debug-assertions and overflow-checks on; 8 MiB stack; sizes above 4096 unexplored; wall clock only as inconclusive watchdog. Blind spot: KF-C12-9 covers any resolver/lowering/formatter panic reached by MALFORMED input (mutants, token soup, mutated JSON); panics on well-formed input (corpus, generated, feature programs) are always reported.", design="DESIGN.md §3 C12 and §9"),
  "C13": dict(technique="runtime monitor of error locations: injected lexical/syntactic/resolution/type/SQL-stage errors with ASCII and multi-byte prefixes, single- and multi-file, spans within one line and across lines; span bounds, char boundaries, independently computed line/column, quoted line, offending token",
     text="Exploration over (error class, prefix class, layout) cells.", note="A span is accepted if one unit (characters or bytes) makes all clauses true; sources with multi-byte text before the error fall under KF-C13-1 (byte offsets), ASCII sources are judged strictly.", design="DESIGN.md §3 C13 and §9"),
@@ -35,10 +35,10 @@ CHECKS = {
     text="Exploration over feature programs, corpus, random programs and every operator nesting in minimal/full parentheses.", note="Tree equality ignores span and doc_comment keys.", design="DESIGN.md §3 C14 and §9"),
  "C15": dict(technique="runtime differential monitor: source -> PL -> JSON -> PL -> RQ -> JSON -> RQ -> SQL through the public json::* API vs one-shot compile (value equality, byte equality of re-serialised JSON, output/error equality)",
     text="Exploration over feature programs, corpus and random programs x dialects x options.", note="Equality is the types' own PartialEq; unstable-under-repetition cases are skipped (C11's business).", design="DESIGN.md §3 C15 and §9"),
- "C16": dict(technique="runtime invariant monitor (Rust, over the public ir::rq types) run on the RQ of every program that reaches RQ",
+ "C16": dict(technique="runtime invariant monitor (Rust, over the public ir::rq types) run on the RQ of every program that reaches RQ (definition before use, single definition, visibility narrowed by Aggregate, declaration order of tables, from/select framing)",
     text="Exploration: unique column-id definitions, definition before use within a pipeline, tables declared before use, from/select framing and arity.", note="'visible' is read as defined earlier in the same pipeline; Loop bodies exempt from framing.", design="DESIGN.md §3 C16 and §9"),
  "C17": dict(
-    technique="runtime monitor over the real lexer's output: exhaustive short strings + random token-fragment strings + corpus; oracle checks span bounds, char boundaries, order, gaps, and re-lex of every token slice",
+    technique="runtime monitor over the real lexer's output: exhaustive short strings + random token-fragment strings + corpus; oracle checks span bounds, char boundaries, order, gaps, and re-lex of every token slice; thorough tier re-runs the same monitor on 640 short hostile strings under Miri (self-tested), any undefined-behaviour report is a violation",
     text="Exploration: the monitor observes prql_to_tokens on every string up to a stated length over alphabets of lexically significant characters (exhaustive within that space), plus random fragment sequences and corpus prefixes. Held means no tiling/re-lex violation other than the listed known findings was observed on those executions.",
     note="Trusts the worker's monitor code (harness/pv-worker/src/c17.rs) and Rust's str::is_char_boundary; strings longer than the exhaustive bound are only sampled.",
     design="DESIGN.md §3 C17 and §9"),
